@@ -53,7 +53,7 @@ PROPS = {
                        'property',
                        "lines within the parser's 256 KiB limit; gzip decoding is a function applied before the tee (chunks are the decompressed "
                        'reads)'],
-    'always_cmds': [['proxyoverlap'], ['proxyrun']],
+    'always_cmds': [['proxyoverlap'], ['proxyrun'], ['sidecarwire']],
         'engines': [('proxy', 600, 12000, ['-propok', 'c12_case', '-shardsize', '100'])],
     'level_note': 'Trusted: Coq kernel; hand-written model of tee + consumer + ResponseWriter automaton; multi-megabyte payloads and the 256 KiB '
                   'line limit are not in the Coq-evaluated cases (payloads <= a few KB).',
@@ -66,14 +66,14 @@ PROPS = {
             "(1..4000 bytes) and ending in EOF, EOF together with the last data, an error, or a 'connection reset by peer' error after a random "
             'number of reads (incl. before the first byte); Prometheus-side ResponseWriter with scheduled short writes (1,2,3,5,50 bytes) and, '
             'rarely, a failing write. Observed: status, Content-Type at header time, body bytes, every Write call (offered, accepted), abort, and '
-            "the target's status entry. non-trivial = a 200 response with a non-empty body was scripted; distinct by input || proxyrun, in every run: the proxy as the binary serves it (Proxy.Run on a loopback listener, used as an HTTP proxy as the Prometheus of the shard uses it) and raw TCP targets: the target is asked for its path byte for byte (/billing//metrics, /a/./b, /a/../, trailing slash), gets the whole body; a body that breaks off after a quarter was forwarded does not reach the client as a complete 200 response",
+            "the target's status entry. non-trivial = a 200 response with a non-empty body was scripted; distinct by input || proxyrun, in every run: the proxy as the binary serves it (Proxy.Run on a loopback listener, used as an HTTP proxy as the Prometheus of the shard uses it) and raw TCP targets: the target is asked for its path byte for byte (/billing//metrics, /a/./b, /a/../, trailing slash), gets the whole body; a body that breaks off after a quarter was forwarded does not reach the client as a complete 200 response || sidecarwire, in every run: `kvass` is built from the working tree and `kvass sidecar` is started with a configuration file (one job with a bearer token and a metric_relabel_configs drop rule, an external label 0755 written in quotes), a stub Prometheus and a real loopback target; the run posts an assignment (the API lists it, the generated file lists it under its job with the routing labels, the proxy URL, plain http, no job secret, the external label as written, and the Prometheus is told to reload a file that lists it), scrapes the target through the proxy the way the generated file tells Prometheus to (the target gets the job request with its credentials and no routing parameter, the client gets the target bytes, the API reports up / series 7 / total 9 / one scrape, the runtime info adds them up), lets the target answer 500 (no 200 reaches the client, the API reports down with an error), and restarts the binary on the same directory (API and generated file list the assignment before any update)",
     'theorems': 'C12_bytes C12_prefix C12_tee_chunk',
     'trusted_base': [   'model Model/Proxy.v hand-written from proxy.go/scraper.go/reader.go + the read loop of the vendored exposition parser as an '
                         'abstract consumer; tie = differential run of the real Proxy.ServeHTTP (exact equality incl. the sequence of Write calls '
                         'when no gzip layer is in between)',
                         'the http.ResponseWriter automaton (first Write sends 200, later WriteHeader ignored, ErrAbortHandler aborts) is modelled, '
                         'not verified']},
-    'C13': {   'always_cmds': [['proxyrun']],
+    'C13': {   'always_cmds': [['proxyrun'], ['sidecarwire']],
           'assumptions': [   'time-outs are modelled as the source ending in an error at some offset; real timer races are not exhibited by the model',
                        'a read error whose text contains "reset by peer" is treated as end of stream by the vendored parser (known finding)'],
     'engines': [   ('proxy', 600, 12000, ['-propok', 'c13_case', '-shardsize', '100']),
@@ -89,7 +89,7 @@ PROPS = {
             "(1..4000 bytes) and ending in EOF, EOF together with the last data, an error, or a 'connection reset by peer' error after a random "
             'number of reads (incl. before the first byte); Prometheus-side ResponseWriter with scheduled short writes (1,2,3,5,50 bytes) and, '
             'rarely, a failing write. Observed: status, Content-Type at header time, body bytes, every Write call (offered, accepted), abort, and '
-            "the target's status entry. non-trivial = a 200 response with a non-empty body was scripted; distinct by input || proxyrun, in every run: the proxy as the binary serves it (Proxy.Run on a loopback listener, used as an HTTP proxy as the Prometheus of the shard uses it) and raw TCP targets: the target is asked for its path byte for byte (/billing//metrics, /a/./b, /a/../, trailing slash), gets the whole body; a body that breaks off after a quarter was forwarded does not reach the client as a complete 200 response",
+            "the target's status entry. non-trivial = a 200 response with a non-empty body was scripted; distinct by input || proxyrun, in every run: the proxy as the binary serves it (Proxy.Run on a loopback listener, used as an HTTP proxy as the Prometheus of the shard uses it) and raw TCP targets: the target is asked for its path byte for byte (/billing//metrics, /a/./b, /a/../, trailing slash), gets the whole body; a body that breaks off after a quarter was forwarded does not reach the client as a complete 200 response || sidecarwire, in every run: `kvass` is built from the working tree and `kvass sidecar` is started with a configuration file (one job with a bearer token and a metric_relabel_configs drop rule, an external label 0755 written in quotes), a stub Prometheus and a real loopback target; the run posts an assignment (the API lists it, the generated file lists it under its job with the routing labels, the proxy URL, plain http, no job secret, the external label as written, and the Prometheus is told to reload a file that lists it), scrapes the target through the proxy the way the generated file tells Prometheus to (the target gets the job request with its credentials and no routing parameter, the client gets the target bytes, the API reports up / series 7 / total 9 / one scrape, the runtime info adds them up), lets the target answer 500 (no 200 reaches the client, the API reports down with an error), and restarts the binary on the same directory (API and generated file list the assignment before any update)",
     'theorems': 'C13_failure_visible C13_bookkeeping C13_rejected_not_counted C13_eoflike_refuted',
     'trusted_base': [   'model Model/Proxy.v hand-written from proxy.go/scraper.go/reader.go + the read loop of the vendored exposition parser as an '
                         'abstract consumer; tie = differential run of the real Proxy.ServeHTTP (exact equality incl. the sequence of Write calls '
@@ -133,7 +133,7 @@ PROPS = {
     'trusted_base': [   'model Model/Sidecar.v hand-written from targets.go/service.go/proxy.go/status.go; tie = step-by-step differential run '
                         '(exact equality of projected observables)',
                         'hook VerifSetTimeNow (clock); JobInfo.Cli replaced by an in-memory RoundTripper']},
-    'C14': {   'always_cmds': [['bigpayload']],
+    'C14': {   'always_cmds': [['bigpayload'], ['sidecarwire']],
           'assumptions': [   "the integer mean is Go's int64(float64(sum)/float64(n)), modelled exactly (Float64.div_round); equality with floor(sum/n) "
                        'for sums < 2^53 is validated differentially, not proved',
                        "relabel.Process is a function of the sample's own labels"],
@@ -147,7 +147,7 @@ PROPS = {
             'reason; 1/8 against a job whose http client the shard does not have - never an operation of the model, whatever it records shows at the next observation), restarts (new manager AND new injector on the same store dir, the configuration reaching the injector before or after the stored assignment, alternating); the real Injector is wired as in cmd/kvass/sidecar.go (first update callback, reload callback) and the file it writes is loaded as Prometheus would after every op; 1/4 of the histories start on a store directory that holds a store file of the old format; 1/4 of the new targets arrive with an estimate above their total; the status text is classified (nothing / stop reason / connection / HTTP status / body); observed after start-up and after every op: /targets/status/, /runtimeinfo/ and /samples/?with_metrics_detail=true (read twice: per job the kept samples and the (kept, all) counts of the two metrics of the payloads). '
             'non-trivial = history of >= 3 ops; distinct by input || bigpayload, in every run: payloads of 300 KB (several blocks of the stream parser, served in 16 KiB reads) with 3000/3000, 1/6000 and 6000/1 kept/dropped samples through the real proxy: /samples/ and the status show the counts known by construction || stats engine: 1-3 blocks of 0-6 (0-30) samples over 3 metrics x 3 optional '
             'labels, exact duplicates, 0-2 keep/drop rules with literal regexes on __name__ or a label; real exposition parser + real '
-            'relabel.Process; non-trivial = >= 2 samples',
+            'relabel.Process; non-trivial = >= 2 samples || sidecarwire, in every run: `kvass` is built from the working tree and `kvass sidecar` is started with a configuration file (one job with a bearer token and a metric_relabel_configs drop rule, an external label 0755 written in quotes), a stub Prometheus and a real loopback target; the run posts an assignment (the API lists it, the generated file lists it under its job with the routing labels, the proxy URL, plain http, no job secret, the external label as written, and the Prometheus is told to reload a file that lists it), scrapes the target through the proxy the way the generated file tells Prometheus to (the target gets the job request with its credentials and no routing parameter, the client gets the target bytes, the API reports up / series 7 / total 9 / one scrape, the runtime info adds them up), lets the target answer 500 (no 200 reaches the client, the API reports down with an error), and restarts the binary on the same directory (API and generated file list the assignment before any update)',
     'theorems': 'C14_counts C14_block_order C14_window C14_runtime C14_samples_add_up C14_last_statistics',
     'trusted_base': [   'model Model/Sidecar.v hand-written from targets.go/service.go/proxy.go/status.go; tie = step-by-step differential run '
                         '(exact equality of projected observables)',
@@ -288,7 +288,7 @@ PROPS = {
                         'Gen/Consts.v regenerated from the Go source by kvharness translate (minWaitScrapeTimes, relief threshold table as exact '
                         'binary64)',
                         'Go map iteration = any permutation, weightedrand.Pick = any eligible shard (Base/Sched.v)']},
-    'C02': {   'always_cmds': [['proxyrun']],
+    'C02': {   'always_cmds': [['proxyrun'], ['sidecarwire']],
        
         'engines': [('route', 400, 8000, ['-shardsize', '100'])],
         'rule': 'one PRNG: one job (scheme http/https, 2 paths, 0-2 params with 1-2 values) and 1-2 target groups (0-2 group labels, 1-3 entries '
@@ -301,7 +301,7 @@ PROPS = {
                 'Reference = scrape.TargetsFromGroup of the Prometheus library on the original job, de-duplicated as the scrape pool does. System = '
                 'real TargetsDiscovery -> ActiveTargetsByHash -> JSON -> real Injector -> config.Load of the written file -> TargetsFromGroup on '
                 'the generated job -> real Proxy.ServeHTTP with a recording client. Compared: visible labels and the URL really requested. '
-                'non-trivial = the reference has >= 1 active target; distinct by input || proxyrun, in every run: the proxy as the binary serves it (Proxy.Run on a loopback listener, used as an HTTP proxy as the Prometheus of the shard uses it) and raw TCP targets: the target is asked for its path byte for byte (/billing//metrics, /a/./b, /a/../, trailing slash), gets the whole body; a body that breaks off after a quarter was forwarded does not reach the client as a complete 200 response',
+                'non-trivial = the reference has >= 1 active target; distinct by input || proxyrun, in every run: the proxy as the binary serves it (Proxy.Run on a loopback listener, used as an HTTP proxy as the Prometheus of the shard uses it) and raw TCP targets: the target is asked for its path byte for byte (/billing//metrics, /a/./b, /a/../, trailing slash), gets the whole body; a body that breaks off after a quarter was forwarded does not reach the client as a complete 200 response || sidecarwire, in every run: `kvass` is built from the working tree and `kvass sidecar` is started with a configuration file (one job with a bearer token and a metric_relabel_configs drop rule, an external label 0755 written in quotes), a stub Prometheus and a real loopback target; the run posts an assignment (the API lists it, the generated file lists it under its job with the routing labels, the proxy URL, plain http, no job secret, the external label as written, and the Prometheus is told to reload a file that lists it), scrapes the target through the proxy the way the generated file tells Prometheus to (the target gets the job request with its credentials and no routing parameter, the client gets the target bytes, the API reports up / series 7 / total 9 / one scrape, the runtime info adds them up), lets the target answer 500 (no 200 reaches the client, the API reports down with an error), and restarts the binary on the same directory (API and generated file list the assignment before any update)',
         'theorems': 'C02_equal C02_equal_for_rules_checked C02_equivalent C02_equivalent_checked C02_equivalent_for_rules C02_equivalent_for_rules_checked C02_param_on_shard C02_proxy_restores C02_routing_param_forgotten '
                     'C02_param_shipping C02_equiv_refuted_interval_labels C02_equiv_refuted_job_emptied (+ computed witnesses, C02_hypotheses_satisfiable)',
         'trusted_base': ['Model/Translate.v hand-written model of BOTH routes (library PopulateLabels/Target.URL as reference; kvass populateLabels, '
@@ -334,7 +334,7 @@ PROPS = {
        'engines': [('loop', 120, 3000, ['-shardsize', '10'])], 'rule': "one PRNG: limits (process 60/100/200, head none/half/equal), max-shard 4-6, min-shard 0-1, max-idle 0 or 600 s, relief (alleviation) disabled in 1 of 4; 1-5 (1-7) targets with sizes from 1 to limit-1 (total >= series), 1/9 unhealthy, 1/10 not discovered; 1-3 initial shards; initial placement empty (the system builds it) or ARBITRARY (each target on each shard with probability 1/3, 1/5 of the copies in_transfer: duplicates, pending transfers without partner, overload); a prefix of 0-4 events: rounds with or without a fault (a target update lost, a shard unreachable / not ready / refusing the configuration for that cycle), sidecar restarts (new process on the same store directory, default configuration), changes of the discovered set; then 14 fault-free rounds (cycle, every assigned copy scraped 3 times through the real proxy, 400 s pass). Real Coordinator (hook VerifRunOnce) against real TargetsManager+Service+Proxy per shard through Shard.APIGet/APIPost closures (JSON intact), a simulated StatefulSet following the last scale request, idle-since instants mapped between the world clock and the coordinator's clock. Observed after every step: every sidecar's /targets/status/ and /runtimeinfo/, POST bodies and scale requests of every cycle. non-trivial = all; distinct by input || bigshard, in every run: a real sidecar service takes an assignment of 4000 targets (a request body of 1.4 MB) and tracks and injects them all; waitloop: the cycle loop goes on after a cycle that returned an error", 'theorems': 'C03_place_or_grow C03_placed_or_counted C03_needed_space_grows_the_replica C03_relief_need_nonnegative C03_orphan_transfer_recovered C03_in_transfer_has_partner C03_tie_broken_by_position C03_one_normal_copy_after_cleaning C03_ripe_cycle_gives_clean_plan C03_world_follows_plan C03_ripe_world_becomes_clean C03_scrape_round_counts C03_settled_is_fixpoint C03_settled_updates_repeat_the_assignment C03_settled_world_unchanged C03_clean_from_the_second_round C03_cycle_places_or_grows C03_sizes_stay_counts C03_placed_or_at_cap C03_converges_in_regime C03_clean_held_world_is_settled C03_converged_stays (+ C03_settled_example, C03_converges_example, computed convergence example)', 'trusted_base': ["Model/World.v composes Model/Sidecar.v and Model/Coordinator.v with a StatefulSet and fault steps; it is run in LOCK STEP with the real closed loop: before every cycle the model builds the coordinator's input from ITS OWN sidecar states, the implementation's POST bodies / scale requests must be one of the model's outcomes (all schedules), and after every step every sidecar's reported state must equal the model's", 'the explorer and discovery are scripted by the harness (their behaviour is C20 / C17)', 'hooks: VerifRunOnce, VerifSetTimeNow'], 'assumptions': ['convergence bound: 14 fault-free rounds are enough for the generated sizes (<= 7 targets, <= 6 shards); a history that needs more would be reported as a violation', 'fairness: every assigned copy is scraped 3 times per round; a scale request takes effect before the next cycle; new shards start empty with the default configuration', 'the liveness statement itself (convergence within a bound from every well-formed world) is one theorem only in the regime without relief and consolidation (alleviation disabled, idle time-out 0): C03_converges_in_regime + C03_converged_stays; outside it see Properties/C03.v STATUS'], 'level_text': "Proof (partial): for every input and every iteration order - an eligible target that assignment visits is placed or its size is added to the needed space; needed space from relief is never negative; non-zero needed space with all shards in sync asks for more than the current count, and clamping keeps that below max-shard (place-or-grow for one whole cycle); an in_transfer copy without partner is normal after the recovery pass and nothing stays in_transfer without one; equal loads no longer keep both copies of a duplicate; the cleaning step as a whole - whatever the in-sync shards report of a discovered target (any number of duplicates, pending transfers with or without partner), once every copy was scraped three times it is on exactly one in-sync shard in normal state after this cycle's garbage collection and recovery pass, for every visiting order (C03_one_normal_copy_after_cleaning), and with no relief to do the whole planning part (gc, recovery, assignment) yields a clean plan - every entry a discovered target in normal state, no target on two shards (C03_ripe_cycle_gives_clean_plan); in the closed-loop model the sidecars hold exactly the final plan after a fault-free cycle (C03_world_follows_plan), so a ripe world with no relief to do is a clean world after ONE cycle (C03_ripe_world_becomes_clean); and the second half of the statement - a settled placement (all in sync, every copy of a discovered target in normal state on exactly one shard, no shard above a relief threshold, every discovered target held or not assignable, idle time-out off) is a fixpoint of the cycle under every schedule: no event, the scale request is the current count, whatever update is still sent repeats the reported assignment, and in the closed-loop model every sidecar keeps its status map and the shard count stays. BOUNDED CONVERGENCE AS ONE THEOREM in the regime without relief and consolidation (alleviation disabled, idle time-out 0, 0 < max-process, min-shard <= max-shard), over the closed-loop model: from EVERY well-formed world (duplicates, pending transfers, leftovers, any counters) and under EVERY iteration order, after max(2, max-shard - shards + 1) calm rounds the world is clean (every held target discovered, in normal state, on exactly one shard) and every eligible discovered target is held unless the replica reached max-shard (C03_converges_in_regime; steps C03_clean_from_the_second_round, C03_cycle_places_or_grows, C03_placed_or_at_cap, C03_sizes_stay_counts), and a clean world whose discovered targets are all held or unplaceable is settled and keeps its placement in every further round (C03_clean_held_world_is_settled, C03_converged_stays). Not proved: the bound outside that regime (relief / consolidation keep starting moves depending on the sizes of the workload); that is validated on the REAL closed loop (lock-step model agreement after every step, end states converged and stable).", 'level_note': 'Trusted: Coq kernel; hand-written closed-loop model validated in lock step; convergence is proved in the regime without relief / consolidation and checked on runs outside it.'},
     'C06': {   'always_cmds': [['waitloop']],
        'engines': [('loop', 120, 3000, ['-shardsize', '10', '-propok', 'c06_case'])], 'rule': "one PRNG: limits (process 60/100/200, head none/half/equal), max-shard 4-6, min-shard 0-1, max-idle 0 or 600 s, relief (alleviation) disabled in 1 of 4; 1-5 (1-7) targets with sizes from 1 to limit-1 (total >= series), 1/9 unhealthy, 1/10 not discovered; 1-3 initial shards; initial placement empty (the system builds it) or ARBITRARY (each target on each shard with probability 1/3, 1/5 of the copies in_transfer: duplicates, pending transfers without partner, overload); a prefix of 0-4 events: rounds with or without a fault (a target update lost, a shard unreachable / not ready / refusing the configuration for that cycle), sidecar restarts (new process on the same store directory, default configuration), changes of the discovered set; then 14 fault-free rounds (cycle, every assigned copy scraped 3 times through the real proxy, 400 s pass). Real Coordinator (hook VerifRunOnce) against real TargetsManager+Service+Proxy per shard through Shard.APIGet/APIPost closures (JSON intact), a simulated StatefulSet following the last scale request, idle-since instants mapped between the world clock and the coordinator's clock. Observed after every step: every sidecar's /targets/status/ and /runtimeinfo/, POST bodies and scale requests of every cycle. non-trivial = all; distinct by input || waitloop, in every run: the loop behind Coordinator.Run (utils/wait.RunUntil) with a cycle that returns an error (as a cycle does when Replicas() fails or no replica is listed): the loop goes on", 'theorems': 'C06_faults_preserve_wf_cycle C06_faults_preserve_wf_step C06_invariant_kept_by_faulty_cycle C06_no_target_lost_by_faults C06_no_target_in_transfer_for_ever C06_no_duplicate_for_ever C06_duplicate_resolved_in_one_cycle C06_one_copy_left_after_one_walk C06_none_unscraped C06_invariants_kept_by_every_history C06_recovers_after_faults (+ C06_recovers_example, computed recovery example)', 'trusted_base': ["Model/World.v composes Model/Sidecar.v and Model/Coordinator.v with a StatefulSet and fault steps; it is run in LOCK STEP with the real closed loop: before every cycle the model builds the coordinator's input from ITS OWN sidecar states, the implementation's POST bodies / scale requests must be one of the model's outcomes (all schedules), and after every step every sidecar's reported state must equal the model's", 'the explorer and discovery are scripted by the harness (their behaviour is C20 / C17)', 'hooks: VerifRunOnce, VerifSetTimeNow'], 'assumptions': ['convergence bound: 14 fault-free rounds are enough for the generated sizes (<= 7 targets, <= 6 shards); a history that needs more would be reported as a violation', 'fairness: every assigned copy is scraped 3 times per round; a scale request takes effect before the next cycle; new shards start empty with the default configuration', 'bounded recovery is one theorem only in the regime without relief and consolidation (alleviation disabled, idle time-out 0): C06_recovers_after_faults; outside it see Properties/C03.v STATUS'], 'level_text': 'Proof (partial): every fault step (lost update, unreachable / unready / out-of-sync shard, restart, scaling) and every cycle with any POST bodies keeps every sidecar well formed (C10 invariant), for all histories; the whole-world invariant is kept by every faulty cycle of the model under every schedule, and through every such history a discovered target that some sidecar holds is never lost (C06_no_target_lost_by_faults: composition of C01, C07, C08, C10); the states faults leave behind and the original code never left - an in_transfer copy without partner, equally loaded duplicates - are left in one cycle; an unscraped eligible target is placed or the replica grows. BOUNDED RECOVERY AS ONE THEOREM in the regime without relief and consolidation (alleviation disabled, idle time-out 0): after ANY history of cycles with faults under any iteration order, scrape rounds, ticks, sidecar restarts and changes of the discovered set, max(2, max-shard - shards + 1) calm rounds make the world clean and every eligible discovered target held by exactly one shard in normal state unless max-shard is reached (C06_recovers_after_faults, resting on C06_invariants_kept_by_every_history and the C03 convergence theorem). Not proved: the bound outside that regime (inherits C03); validated on the real closed loop with injected faults followed by 14 fault-free rounds.', 'level_note': 'Trusted: Coq kernel; hand-written closed-loop model validated in lock step; recovery is proved in the regime without relief / consolidation and checked on runs outside it.'},
-    'C11': {   'always_cmds': [['injectorder']],
+    'C11': {   'always_cmds': [['injectorder'], ['sidecarwire']],
        
         'engines': [('inject', 300, 6000, ['-shardsize', '50']), ('sidecar', 200, 4000, ['-propok', 'c10_case', '-shardsize', '100'])],
         'rule': 'one PRNG: configuration TEXTS with/without global (+external labels, one of them with a value a generic YAML decoder re-types: 0755, 1.10, yes, 1e3, 0x1F, ~, 007, +1, on, a date, 0o17, 1_000, .5, No), 0-2 rule files, alerting with an Alertmanager using none/basic/'
@@ -347,7 +347,7 @@ PROPS = {
                 'Injector (ApplyConfig then UpdateTargets, or - one case in three - the assignment first, as after a restart without a configuration file) after a HISTORY of 0-2 earlier configurations/assignments on the same injector (fresh ones, '
                 'or copies differing only in external labels / in a non-job secret / in the assignment); the written file is loaded with '
                 'config.Load and projected like the input; non-job sections are compared as generic documents and as loaded structs; the file '
-                'is searched for every job secret. non-trivial = >= 1 job; distinct by input || injectorder, in every run: an assignment of 12000 targets and, while it is being written, one of 1 target, on the real injector: the file holds the later one (skipped when the machine writes the large one in under 150 ms) || sidecar engine, wired as cmd/kvass/sidecar.go wires the binary: the REAL injector is the first update callback of the targets manager and the reload callback of the configuration manager (a restart makes a new one; configuration before or after the stored assignment, alternating); after every operation the generated file is loaded as Prometheus would and must list, per job, exactly the hashes the model holds (updates that repeat, empty, drop whole jobs, fail in a later callback; restarts)',
+                'is searched for every job secret. non-trivial = >= 1 job; distinct by input || injectorder, in every run: an assignment of 12000 targets and, while it is being written, one of 1 target, on the real injector: the file holds the later one (skipped when the machine writes the large one in under 150 ms) || sidecar engine, wired as cmd/kvass/sidecar.go wires the binary: the REAL injector is the first update callback of the targets manager and the reload callback of the configuration manager (a restart makes a new one; configuration before or after the stored assignment, alternating); after every operation the generated file is loaded as Prometheus would and must list, per job, exactly the hashes the model holds (updates that repeat, empty, drop whole jobs, fail in a later callback; restarts) || sidecarwire, in every run: `kvass` is built from the working tree and `kvass sidecar` is started with a configuration file (one job with a bearer token and a metric_relabel_configs drop rule, an external label 0755 written in quotes), a stub Prometheus and a real loopback target; the run posts an assignment (the API lists it, the generated file lists it under its job with the routing labels, the proxy URL, plain http, no job secret, the external label as written, and the Prometheus is told to reload a file that lists it), scrapes the target through the proxy the way the generated file tells Prometheus to (the target gets the job request with its credentials and no routing parameter, the client gets the target bytes, the API reports up / series 7 / total 9 / one scrape, the runtime info adds them up), lets the target answer 500 (no 200 reaches the client, the API reports down with an error), and restarts the binary on the same directory (API and generated file list the assignment before any update)',
         'theorems': 'C11_jobs C11_names C11_job_fields C11_static_entry C11_no_job_secret C11_rest C11_sections_kept C11_generated_file_lists_the_assignment C11_generated_file_after_update',
         'trusted_base': ['Model/Inject.v hand-written from injector.go at the granularity of the property: ingestion-relevant settings, relabeling and TLS '
                          'are opaque fingerprints computed by the same Go projection on input and output; tie = exact equality of the projected job list '
